@@ -308,6 +308,70 @@ theorem full_pipeline_any_source (F : FloatOps) (src : ImgG) (o : Bool) (w h : N
       rw [if_neg hbot]
     rw [h3, hl, fullCell_eq, hT, ← hB]
 
+/-- For an opaque source of any type the full-block cell is exact too: a space whose background is the channel-wise
+    mean of the 8-bit colours the two source pixels under it have where they are read (the upper one alone in a last
+    odd row). -/
+theorem full_pipeline_any_opaque_source (F : FloatOps) (src : ImgG) (o : Bool) (w h : Nat) (hw : 0 < src.w) (hh : 0 < src.h)
+    (hop : ∀ x y, x < src.w → y < src.h → (src.pix x y).a = 0xffff ∧ (src.pix x y).r < 65536 ∧ (src.pix x y).g < 65536 ∧ (src.pix x y).b < 65536)
+    (v : Img) (hr : resizeImgG F src o w h fullBlockGeom.1 fullBlockGeom.2 = .ok v) :
+    ∃ shown : C16 → C8, (shown = toRGB ∨ shown = fun c => ⟨c.r / 256, c.g / 256, c.b / 256, 255⟩) ∧
+      ∀ e ∈ fullCells v,
+        let t := shown (src.pix (nnIndex e.1 src.w v.w) (nnIndex (2 * e.2.1) src.h v.h))
+        let b := if 2 * e.2.1 + 1 < v.h then shown (src.pix (nnIndex e.1 src.w v.w) (nnIndex (2 * e.2.1 + 1) src.h v.h)) else t
+        e.2.2 = ⟨0x20, 0, rgbColor ((b.r + t.r) / 2 % 256) ((b.g + t.g) / 2 % 256) ((b.b + t.b) / 2 % 256)⟩ := by
+  obtain ⟨_, seen, hseen, hall⟩ := full_pipeline_any_source F src o w h hw hh v hr
+  have h255 : ∀ c : C16, c.a = 0xffff → (toRGB c).a = 255 := by
+    intro c ha
+    have : c.a = 255 * 257 := by rw [ha]
+    exact toRGB_alpha c 255 this (by decide)
+  have key : ∃ shown : C16 → C8, (shown = toRGB ∨ shown = fun c => ⟨c.r / 256, c.g / 256, c.b / 256, 255⟩) ∧
+      ∀ c : C16, c.a = 0xffff → c.r < 65536 → c.g < 65536 → c.b < 65536 → toRGB (seen c) = shown c ∧ (shown c).a = 255 := by
+    rcases hseen with hs | hs
+    · refine ⟨toRGB, Or.inl rfl, fun c ha _ _ _ => ?_⟩
+      rw [hs]; exact ⟨rfl, h255 c ha⟩
+    · refine ⟨fun c => ⟨c.r / 256, c.g / 256, c.b / 256, 255⟩, Or.inr rfl, fun c ha hr hg hb => ?_⟩
+      rw [hs]
+      have := generic_scaled_opaque_pixel c ha hr hg hb false
+      simp only [Bool.false_eq_true, if_false] at this
+      exact ⟨this, rfl⟩
+  obtain ⟨shown, hshown, hsh⟩ := key
+  refine ⟨shown, hshown, ?_⟩
+  intro e he
+  obtain ⟨h1, h2, h3⟩ := hall e he
+  have hrow : 2 * e.2.1 < v.h := by
+    unfold ceilDiv at h2; omega
+  have hx := nnIndex_lt e.1 src.w v.w h1 hw
+  have hy := nnIndex_lt (2 * e.2.1) src.h v.h hrow hh
+  obtain ⟨a1, a2, a3, a4⟩ := hop _ _ hx hy
+  obtain ⟨eT, aT⟩ := hsh _ a1 a2 a3 a4
+  intro t b
+  rw [h3]
+  simp only [eT]
+  by_cases hbot : 2 * e.2.1 + 1 < v.h
+  · have hy' := nnIndex_lt (2 * e.2.1 + 1) src.h v.h hbot hh
+    obtain ⟨b1, b2, b3, b4⟩ := hop _ _ hx hy'
+    obtain ⟨eB, aB⟩ := hsh _ b1 b2 b3 b4
+    simp only [if_pos hbot, eB]
+    have n : ¬ ((shown (src.pix (nnIndex e.1 src.w v.w) (nnIndex (2 * e.2.1 + 1) src.h v.h))).a +
+        (shown (src.pix (nnIndex e.1 src.w v.w) (nnIndex (2 * e.2.1) src.h v.h))).a) / 2 % 256 < 50 := by
+      rw [aT, aB]; decide
+    simp only [n, if_false]
+    show _ = (⟨0x20, 0, rgbColor ((b.r + t.r) / 2 % 256) ((b.g + t.g) / 2 % 256) ((b.b + t.b) / 2 % 256)⟩ : BCell)
+    have hb' : b = shown (src.pix (nnIndex e.1 src.w v.w) (nnIndex (2 * e.2.1 + 1) src.h v.h)) := by
+      show (if 2 * e.2.1 + 1 < v.h then _ else _) = _
+      rw [if_pos hbot]
+    rw [hb']
+  · simp only [if_neg hbot]
+    have n : ¬ ((shown (src.pix (nnIndex e.1 src.w v.w) (nnIndex (2 * e.2.1) src.h v.h))).a +
+        (shown (src.pix (nnIndex e.1 src.w v.w) (nnIndex (2 * e.2.1) src.h v.h))).a) / 2 % 256 < 50 := by
+      rw [aT]; decide
+    simp only [n, if_false]
+    show _ = (⟨0x20, 0, rgbColor ((b.r + t.r) / 2 % 256) ((b.g + t.g) / 2 % 256) ((b.b + t.b) / 2 % 256)⟩ : BCell)
+    have hb' : b = t := by
+      show (if 2 * e.2.1 + 1 < v.h then _ else _) = _
+      rw [if_neg hbot]
+    rw [hb']
+
 /-- Non-vacuity: `color.YCbCr` pixels (mid grey, saturated extremes that clamp) meet the opacity hypothesis. -/
 example :
     let px := [C16.ofQuad (ycbcrRGBA 200 128 128), .ofQuad (ycbcrRGBA 255 255 255), .ofQuad (ycbcrRGBA 0 0 0), .ofQuad (ycbcrRGBA 16 255 0)]
